@@ -230,6 +230,6 @@ MANIFEST = {
             "KeyGen's result lies in [1, r-1] on every path, Sign/Verify and PopProve/PopVerify feed identical "
             "(message, tag, hash) triples to hash_to_G2 and the verified pairing exponent is the zero polynomial for honest "
             "signatures. Bilinearity itself is not decided (listed in evidence).",
-    "note": "Trusted: evaluator's model of the Python fragment; oracle r = x^4-x^2+1; conditional on C05 (bilinearity), "
+    "note": "R8 re-states C11 (decode(encode(P)) = P) for the keys and signatures the suites produce; R7 the totality obligations of C10/C15. Trusted: evaluator's model of the Python fragment; oracle r = x^4-x^2+1; conditional on C05 (bilinearity), "
             "C07/C10/C11 for the meaning of the opaque terms.",
 }
